@@ -8,7 +8,8 @@ REJECTIONS = ['wrong-type', 'outside-enum', 'non-numeric', 'wrong-ref-class', 'b
               'duplicate-dataset', 'unknown-keyword', 'name-not-str', 'bad-assign', 'frame-no-channels', 'units-on-unitless',
               'dataset-name-not-text', 'refused-inside-hc-context']
 FAILED_WRITES = ['missing-data', 'inconsistent-dimension', 'flush-error', 'hc-breach-at-write', 'unequal-rows',
-                 'index-not-1d', 'hc-nonuniform-index', 'incomplete-then-completed', 'frameless-channel-axis-mismatch', 'index-2d-then-channel-removed']
+                 'index-not-1d', 'hc-nonuniform-index', 'incomplete-then-completed', 'frameless-channel-axis-mismatch', 'index-2d-then-channel-removed',
+                 'element-limit-exceeded-then-other-width']
 META = {
     'level': 'fault_enumeration',
     'rule': ('one evaluation = one history pair: the specification with rejected add_*/assignment calls (or a failed write) '
@@ -534,6 +535,26 @@ def run_case(case):
         b = S.build(sp)
         bad = np.arange(2 * n, dtype=np.float64).reshape(n, 2) * 100.0 + 5000.0
         first = S.do_write(sp, b, path, harness.scratch_dir(), data={'FW-INDEX': bad})
+        second = S.do_write(sp, b, path, harness.scratch_dir())
+    elif cause == 'element-limit-exceeded-then-other-width':
+        # a channel with an ELEMENT-LIMIT of the user's and no DIMENSION first gets data WIDER than the limit (refused after
+        # the dimension has been taken from those data), then data of another width that fits
+        import numpy as np
+        n = r.choice([3, 6])
+        lim = r.choice([4, 5])
+        fit = r.choice([2, 3, lim])
+        sp['ops'].append(gen.channel_op('FW-DEPTH', '<f8', (n,), fill={'kind': 'lin', 'start': 1.0, 'step': 1.0}))
+        wide = gen.channel_op('FW-WIDE', '<f4', (n, fit), fill={'kind': 'pos', 'tag': 7})
+        wide['attrs']['element_limit'] = [lim]
+        sp['ops'].append(wide)
+        ci = len(sp['ops']) - 2
+        sp['ops'].append(gen.frame_op('FW-FRAME', [ci, ci + 1]))
+        for o in sp['ops'][-3:]:
+            o['lf'] = 0
+        fresh_spec = copy.deepcopy(sp)
+        b = S.build(sp)
+        bad = np.arange(n * (lim + 2), dtype=np.float32).reshape(n, lim + 2)
+        first = S.do_write(sp, b, path, harness.scratch_dir(), data={'FW-WIDE': bad})
         second = S.do_write(sp, b, path, harness.scratch_dir())
     elif cause == 'frameless-channel-axis-mismatch':
         # a channel in no frame whose DIMENSION does not fit its axis: refused while the CHANNEL set is written (after the
